@@ -71,8 +71,10 @@ type Sched struct {
 	preemptions int
 	mutexes     map[*value]*mutexState
 	wgs         map[*value]*wgState
-	selectors   []*G // goroutines blocked in a select, woken by any channel event
-	quiet       int  // > 0: channel operations are part of a select (no extra scheduling point)
+	timers      []*timer
+	logical     uint64 // logical clock of the timers (ns)
+	selectors   []*G   // goroutines blocked in a select, woken by any channel event
+	quiet       int    // > 0: channel operations are part of a select (no extra scheduling point)
 	nchan       int
 	engineErr   string
 }
@@ -119,6 +121,13 @@ func (s *Sched) block(g *G, what string) {
 
 func (s *Sched) switchAway(g *G) {
 	others := s.runnableOthers(g)
+	if len(others) == 0 && g.state != gRunnable && s.jumpToNextTimer() {
+		// everything was blocked: time has passed until a timer was due
+		if g.state == gRunnable {
+			return
+		}
+		others = s.runnableOthers(g)
+	}
 	if len(others) == 0 {
 		if g.state == gRunnable {
 			return // nothing else to run
@@ -255,6 +264,9 @@ func (s *Sched) spawn(body func(g *G), isMain bool) *G {
 		}
 		// hand the baton on
 		others := s.runnableOthers(g)
+		if len(others) == 0 && s.jumpToNextTimer() {
+			others = s.runnableOthers(g)
+		}
 		if len(others) == 0 {
 			s.m.endPath("deadlock", s.describeBlocked(), "")
 			s.signalDone()
@@ -373,6 +385,69 @@ func (s *Sched) closeChan(g *G, ch *chanObj) {
 		w.g.state = gRunnable
 	}
 	ch.sendq = nil
+}
+
+// ---------------------------------------------------------------- timers
+
+// Timers (time.After) live on a logical clock that advances by what is slept
+// (time.Sleep) or declared to pass (verifAdvanceClock), and -- when every
+// goroutine is blocked -- jumps to the earliest pending deadline.  A timer
+// that is due delivers one value on its channel.
+type timer struct {
+	ch       *chanObj
+	deadline uint64
+	fired    bool
+}
+
+func (s *Sched) addTimer(d uint64, elem types.Type) *chanObj {
+	ch := s.newChan(1, elem)
+	s.timers = append(s.timers, &timer{ch: ch, deadline: s.logical + d})
+	return ch
+}
+
+// advance moves the logical clock and fires what is due.
+func (s *Sched) advance(d uint64) {
+	s.logical += d
+	s.fireDue()
+}
+
+func (s *Sched) fireDue() {
+	for _, t := range s.timers {
+		if t.fired || t.deadline > s.logical {
+			continue
+		}
+		t.fired = true
+		v := timeVal{BV(t.deadline, 64)}
+		ch := t.ch
+		if len(ch.recvq) > 0 {
+			w := ch.recvq[0]
+			ch.recvq = ch.recvq[1:]
+			w.g.recvVal, w.g.recvOK = v, true
+			w.g.state = gRunnable
+		} else {
+			ch.buf = append(ch.buf, v)
+		}
+		s.wakeSelectors()
+	}
+}
+
+// jumpToNextTimer: every goroutine is blocked; if a timer is pending, time
+// passes until it is due.  Reports whether anything was fired.
+func (s *Sched) jumpToNextTimer() bool {
+	var next *timer
+	for _, t := range s.timers {
+		if !t.fired && (next == nil || t.deadline < next.deadline) {
+			next = t
+		}
+	}
+	if next == nil {
+		return false
+	}
+	if next.deadline > s.logical {
+		s.logical = next.deadline
+	}
+	s.fireDue()
+	return true
 }
 
 // ---------------------------------------------------------------- select
